@@ -419,6 +419,13 @@ class C18(Check):
         else:
             table = None
             if has_badrepr:
+                # the page must SAY that the section could not be computed: the error is reported inline
+                kinds = set(kind for name, (kind, _) in serving.items() if kind.startswith('badrepr') and 'secret' not in name)
+                signs = {'badrepr': 'repr failed', 'badrepr-http': 'ServiceUnavailable', 'badrepr-quoting': 'invalid literal',
+                         'badrepr-surrogate': 'No such file', 'badrepr-badstr': '_Unprintable'}
+                if not any(signs[k] in body for k in kinds if k in signs):
+                    return ('failed-section-not-reported', 'the resources section could not be computed (%s) and the page does not say so'
+                            % sorted(kinds))
                 res.probe('bad-repr-section-inline')
                 return None
         for name, (kind, marker) in sorted(serving.items()):
